@@ -31,7 +31,7 @@ type Style struct {
 	Cmt      bool   `json:"cmt,omitempty"`      // inline /* */ comments
 	Heredoc  int    `json:"heredoc,omitempty"`  // 0 never, 1 <<, 2 also <<- with extra indentation
 	Legacy   bool   `json:"legacy,omitempty"`   // x.0 for x[0], .* for [*] where equivalent
-	Esc      bool   `json:"esc,omitempty"`      // \uXXXX spellings in quoted literals
+	Esc      bool   `json:"esc,omitempty"`      // \xHH spellings (the fork's byte escape) in quoted literals
 	NumSpell bool   `json:"numspell,omitempty"` // 1e3, 2.50, 5e-1
 	Alt      bool   `json:"alt,omitempty"`      // ':' in object items, trailing commas, newline item separators
 	Seed     uint64 `json:"seed,omitempty"`
@@ -835,11 +835,19 @@ func (p *printer) lit(s string, quoted bool) {
 				sb.WriteRune(r)
 			}
 		default:
-			if p.st.Esc && r != '$' && r != '%' && p.chance(1, 6) {
-				if r < 0x10000 && p.pick(2) == 0 {
-					fmt.Fprintf(&sb, `\u%04x`, r)
-				} else {
-					fmt.Fprintf(&sb, `\U%08X`, r)
+			// \xHH (one raw byte; the fork's own escape): spell the rune as one \xHH per
+			// UTF-8 byte.  The fork's scanner lets up to four hexadecimal digits follow \x,
+			// so the spelling is used only when the next character is not such a digit.
+			nextHex := i+1 < len(rs) && isHexDigit(rs[i+1])
+			if p.st.Esc && r != '$' && r != '%' && !nextHex && p.chance(1, 6) {
+				var buf [4]byte
+				n := utf8.EncodeRune(buf[:], r)
+				for _, b := range buf[:n] {
+					if p.pick(2) == 0 {
+						fmt.Fprintf(&sb, `\x%02x`, b)
+					} else {
+						fmt.Fprintf(&sb, `\x%02X`, b)
+					}
 				}
 			} else {
 				sb.WriteRune(r)
@@ -851,6 +859,10 @@ func (p *printer) lit(s string, quoted bool) {
 	if out != "" {
 		p.last = out[len(out)-1]
 	}
+}
+
+func isHexDigit(r rune) bool {
+	return (r >= '0' && r <= '9') || (r >= 'a' && r <= 'f') || (r >= 'A' && r <= 'F')
 }
 
 func (p *printer) seqOpen(intro string, strip bool) {
